@@ -320,18 +320,13 @@ theorem handleUpsert_qframe (p : Params) (s : SState) (key : Nat) (hash : UInt64
     qframe_withInfo _ _ _
   refine QFrame.trans h0 ?_
   generalize withInfo s ve.info (fun i => { i with dirty := false }) = s1
-  by_cases h1 : (getInfo s1 ve.info).admitted = true
-  · rw [if_pos h1]; exact applyUpdate_qframe _ _ _ _ _
-  · rw [if_neg h1]
-    by_cases h2 : (!p.q.d7 && !isCurrentEntry s1 key ve) = true
-    · rw [if_pos h2]; exact QFrame.refl _
-    · rw [if_neg h2]
-      by_cases h3 : hasEnoughCapacity p newW s1 = true
-      · rw [if_pos h3]; exact handleAdmit_qframe _ _ _ _ _ _
-      · rw [if_neg h3]
-        by_cases h4 : tooBig p newW = true
-        · rw [if_pos h4]; exact removeCandidate_qframe _ _ _ _
-        · rw [if_neg h4]; exact admitOrReject_qframe _ _ _ _ _ _
+  repeat' split
+  all_goals first
+    | exact applyUpdate_qframe _ _ _ _ _
+    | exact QFrame.refl _
+    | exact handleAdmit_qframe _ _ _ _ _ _
+    | exact removeCandidate_qframe _ _ _ _
+    | exact admitOrReject_qframe _ _ _ _ _ _
 
 theorem applyWrite_qframe (p : Params) (s : SState) (op : WOp) : QFrame s (applyWrite p s op) := by
   cases op with
@@ -430,6 +425,461 @@ theorem enableSketch_qframe (p : Params) (s : SState) : QFrame s (enableSketch p
   split
   · qframe_step; exact QFrame.refl s
   · exact QFrame.refl s
+
+/-! ### `QKeep`: the frame without the queues -/
+
+structure QKeep (s s' : SState) : Prop where
+  running : s'.running = s.running
+  now : s'.now = s.now
+  syncAfter : s'.syncAfter = s.syncAfter
+  hang : s'.fault = some Fault.hang → s.fault = some Fault.hang
+
+theorem QKeep.refl (s : SState) : QKeep s s := ⟨rfl, rfl, rfl, fun h => h⟩
+
+theorem QKeep.trans {a b c : SState} (h1 : QKeep a b) (h2 : QKeep b c) : QKeep a c :=
+  ⟨h2.running.trans h1.running, h2.now.trans h1.now, h2.syncAfter.trans h1.syncAfter,
+   fun h => h1.hang (h2.hang h)⟩
+
+theorem QFrame.toKeep {s s' : SState} (h : QFrame s s') : QKeep s s' :=
+  ⟨h.running, h.now, h.syncAfter, h.hang⟩
+
+/-! ### `apply_writes` / `apply_reads` pop their queue -/
+
+/-- `applyWrites p n` removes exactly the first `min n len` operations of the write queue and
+touches neither the read queue nor the housekeeper. -/
+theorem applyWrites_spec (p : Params) (n : Nat) : ∀ (s : SState),
+    (applyWrites p n s).writeQ = s.writeQ.drop n ∧ (applyWrites p n s).readQ = s.readQ ∧
+    QKeep s (applyWrites p n s) := by
+  induction n with
+  | zero => intro s; exact ⟨rfl, rfl, QKeep.refl s⟩
+  | succ n ih =>
+    intro s
+    unfold applyWrites
+    split
+    · rename_i hq
+      exact ⟨by rw [hq]; rfl, rfl, QKeep.refl s⟩
+    · rename_i op rest hq
+      have hf := applyWrite_qframe p { s with writeQ := rest } op
+      obtain ⟨h1, h2, h3⟩ := ih (applyWrite p { s with writeQ := rest } op)
+      refine ⟨?_, ?_, ?_⟩
+      · rw [h1, hf.writeQ, hq]; rfl
+      · rw [h2, hf.readQ]
+      · exact QKeep.trans ⟨hf.running, hf.now, hf.syncAfter, hf.hang⟩ h3
+
+theorem applyWrites_writeQ (p : Params) (n : Nat) (s : SState) :
+    (applyWrites p n s).writeQ = s.writeQ.drop n := (applyWrites_spec p n s).1
+
+theorem applyWrites_writeQ_length (p : Params) (n : Nat) (s : SState) :
+    (applyWrites p n s).writeQ.length = s.writeQ.length - n := by
+  rw [applyWrites_writeQ, List.length_drop]
+
+theorem applyWrites_running (p : Params) (n : Nat) (s : SState) :
+    (applyWrites p n s).running = s.running := (applyWrites_spec p n s).2.2.running
+
+theorem applyReads_spec (p : Params) (n : Nat) : ∀ (s : SState),
+    (applyReads p n s).readQ = s.readQ.drop n ∧ (applyReads p n s).writeQ = s.writeQ ∧
+    QKeep s (applyReads p n s) := by
+  induction n with
+  | zero => intro s; exact ⟨rfl, rfl, QKeep.refl s⟩
+  | succ n ih =>
+    intro s
+    unfold applyReads
+    split
+    · rename_i hq
+      exact ⟨by rw [hq]; rfl, rfl, QKeep.refl s⟩
+    · rename_i op rest hq
+      have hf := applyRead_qframe p { s with readQ := rest } op
+      obtain ⟨h1, h2, h3⟩ := ih (applyRead p { s with readQ := rest } op)
+      refine ⟨?_, ?_, ?_⟩
+      · rw [h1, hf.readQ, hq]; rfl
+      · rw [h2, hf.writeQ]
+      · exact QKeep.trans ⟨hf.running, hf.now, hf.syncAfter, hf.hang⟩ h3
+
+theorem applyReads_readQ (p : Params) (n : Nat) (s : SState) :
+    (applyReads p n s).readQ = s.readQ.drop n := (applyReads_spec p n s).1
+
+theorem applyReads_writeQ (p : Params) (n : Nat) (s : SState) :
+    (applyReads p n s).writeQ = s.writeQ := (applyReads_spec p n s).2.1
+
+theorem applyReads_running (p : Params) (n : Nat) (s : SState) :
+    (applyReads p n s).running = s.running := (applyReads_spec p n s).2.2.running
+
+/-! ### one pass of the `Inner::sync` loop empties both queues -/
+
+/-- The body of the `while` loop of `Inner::sync`. -/
+def syncPass (p : Params) (s : SState) : SState :=
+  let s := if s.readQ.length > 0 then applyReads p s.readQ.length s else s
+  let s := if s.writeQ.length > 0 then applyWrites p s.writeQ.length s else s
+  if shouldEnableSketch p s then enableSketch p s else s
+
+theorem syncLoop_succ (p : Params) (fuel : Nat) (s : SState) :
+    syncLoop p (fuel + 1) s =
+      if ((syncPass p s).readQ.length ≥ Gen.READ_LOG_FLUSH_POINT ||
+          (syncPass p s).writeQ.length ≥ Gen.WRITE_LOG_FLUSH_POINT) = true
+      then syncLoop p fuel (syncPass p s) else syncPass p s := rfl
+
+private theorem nil_of_not_pos {α : Type} {l : List α} (h : ¬ l.length > 0) : l = [] := by
+  cases l with
+  | nil => rfl
+  | cons a t => exact absurd (Nat.succ_pos _) h
+
+theorem syncPass_spec (p : Params) (s : SState) :
+    (syncPass p s).writeQ = [] ∧ (syncPass p s).readQ = [] ∧ QKeep s (syncPass p s) := by
+  unfold syncPass
+  dsimp only
+  have h1 : (if s.readQ.length > 0 then applyReads p s.readQ.length s else s).readQ = [] ∧
+      (if s.readQ.length > 0 then applyReads p s.readQ.length s else s).writeQ = s.writeQ ∧
+      QKeep s (if s.readQ.length > 0 then applyReads p s.readQ.length s else s) := by
+    split
+    · obtain ⟨a, b, c⟩ := applyReads_spec p s.readQ.length s
+      exact ⟨by rw [a, List.drop_length], b, c⟩
+    · rename_i h
+      exact ⟨nil_of_not_pos h, rfl, QKeep.refl s⟩
+  generalize (if s.readQ.length > 0 then applyReads p s.readQ.length s else s) = s1 at h1 ⊢
+  obtain ⟨h1r, _, h1k⟩ := h1
+  have h2 : (if s1.writeQ.length > 0 then applyWrites p s1.writeQ.length s1 else s1).writeQ = [] ∧
+      (if s1.writeQ.length > 0 then applyWrites p s1.writeQ.length s1 else s1).readQ = s1.readQ ∧
+      QKeep s1 (if s1.writeQ.length > 0 then applyWrites p s1.writeQ.length s1 else s1) := by
+    split
+    · obtain ⟨a, b, c⟩ := applyWrites_spec p s1.writeQ.length s1
+      exact ⟨by rw [a, List.drop_length], b, c⟩
+    · rename_i h
+      exact ⟨nil_of_not_pos h, rfl, QKeep.refl s1⟩
+  generalize (if s1.writeQ.length > 0 then applyWrites p s1.writeQ.length s1 else s1) = s2 at h2 ⊢
+  obtain ⟨h2w, h2r, h2k⟩ := h2
+  split
+  · have hf := enableSketch_qframe p s2
+    exact ⟨by rw [hf.writeQ, h2w], by rw [hf.readQ, h2r, h1r], (h1k.trans h2k).trans hf.toKeep⟩
+  · exact ⟨h2w, by rw [h2r, h1r], h1k.trans h2k⟩
+
+theorem syncLoop_keep (p : Params) (fuel : Nat) : ∀ (s : SState), QKeep s (syncLoop p fuel s) := by
+  induction fuel with
+  | zero => intro s; exact QKeep.refl s
+  | succ fuel ih =>
+    intro s
+    rw [syncLoop_succ]
+    split
+    · exact (syncPass_spec p s).2.2.trans (ih _)
+    · exact (syncPass_spec p s).2.2
+
+/-- With both queues empty the loop has nothing to do to them (whatever the flush points). -/
+theorem syncLoop_empty (p : Params) (fuel : Nat) : ∀ (s : SState), s.writeQ = [] → s.readQ = [] →
+    (syncLoop p fuel s).writeQ = [] ∧ (syncLoop p fuel s).readQ = [] := by
+  induction fuel with
+  | zero => intro s hw hr; exact ⟨hw, hr⟩
+  | succ fuel ih =>
+    intro s _ _
+    obtain ⟨a, b, _⟩ := syncPass_spec p s
+    rw [syncLoop_succ]
+    split
+    · exact ih _ a b
+    · exact ⟨a, b⟩
+
+/-- The loop of `Inner::sync`, run at least once, ends with both queues empty. -/
+theorem syncLoop_queues (p : Params) (fuel : Nat) (s : SState) :
+    (syncLoop p (fuel + 1) s).writeQ = [] ∧ (syncLoop p (fuel + 1) s).readQ = [] := by
+  obtain ⟨a, b, _⟩ := syncPass_spec p s
+  rw [syncLoop_succ]
+  split
+  · exact syncLoop_empty p fuel _ a b
+  · exact ⟨a, b⟩
+
+/-! ### `Inner::sync` and the housekeeper -/
+
+theorem syncRun_spec (p : Params) (s : SState) :
+    (syncRun p s).writeQ = [] ∧ (syncRun p s).readQ = [] ∧ QKeep s (syncRun p s) := by
+  unfold syncRun
+  dsimp only
+  have h0 : QFrame s { s with cec := s.ec, cws := s.ws } := qframe_set_cec_cws _ _ _
+  have h1 := syncLoop_queues p Gen.MAX_SYNC_REPEATS { s with cec := s.ec, cws := s.ws }
+  have h1k := syncLoop_keep p (Gen.MAX_SYNC_REPEATS + 1) { s with cec := s.ec, cws := s.ws }
+  generalize syncLoop p (Gen.MAX_SYNC_REPEATS + 1) { s with cec := s.ec, cws := s.ws } = s1
+    at h1 h1k ⊢
+  have h2 : QFrame s1 (if (p.hasExpiry || s1.va.isSome) = true then evictExpired p s1 else s1) := by
+    split
+    · exact evictExpired_qframe _ _
+    · exact QFrame.refl _
+  generalize (if (p.hasExpiry || s1.va.isSome) = true then evictExpired p s1 else s1) = s2 at h2 ⊢
+  have h3 : QFrame s2 (if weightsToEvict p s2 > 0
+      then evictLruLoop p Gen.SYNC_EVICTION_BATCH_SIZE s2 (weightsToEvict p s2) 0 else s2) := by
+    split
+    · exact evictLruLoop_qframe _ _ _ _ _
+    · exact QFrame.refl _
+  generalize (if weightsToEvict p s2 > 0
+      then evictLruLoop p Gen.SYNC_EVICTION_BATCH_SIZE s2 (weightsToEvict p s2) 0 else s2) = s3
+    at h3 ⊢
+  have h4 : QFrame s1 { s3 with ec := s3.cec, ws := s3.cws } :=
+    (h2.trans h3).trans (qframe_set_ec_ws _ _ _)
+  exact ⟨by rw [h4.writeQ, h1.1], by rw [h4.readQ, h1.2], (h0.toKeep.trans h1k).trans h4.toKeep⟩
+
+theorem syncRun_writeQ (p : Params) (s : SState) : (syncRun p s).writeQ = [] :=
+  (syncRun_spec p s).1
+
+theorem syncRun_readQ (p : Params) (s : SState) : (syncRun p s).readQ = [] :=
+  (syncRun_spec p s).2.1
+
+theorem syncRun_running (p : Params) (s : SState) : (syncRun p s).running = s.running :=
+  (syncRun_spec p s).2.2.running
+
+/-- What `Housekeeper::try_sync` does when no maintenance run is in progress. -/
+structure Synced (s s' : SState) : Prop where
+  writeQ : s'.writeQ = []
+  readQ : s'.readQ = []
+  running : s'.running = false
+  now : s'.now = s.now
+  hang : s'.fault = some Fault.hang → s.fault = some Fault.hang
+
+theorem trySync_spec (p : Params) (s : SState) (hr : s.running = false) :
+    Synced s (trySync p s) := by
+  unfold trySync
+  rw [if_neg (by rw [hr]; exact Bool.false_ne_true)]
+  dsimp only
+  obtain ⟨a, b, c⟩ := syncRun_spec p
+    { s with running := true, syncAfter := s.now + Gen.PERIODICAL_SYNC_INTERVAL_MILLIS * 1000000 }
+  exact ⟨a, b, rfl, c.now, c.hang⟩
+
+/-- While a maintenance run is in progress (`running`), `try_sync` does nothing. -/
+theorem trySync_running (p : Params) (s : SState) (hr : s.running = true) : trySync p s = s := by
+  unfold trySync
+  rw [if_pos hr]
+
+/-! ### the queue invariant of single-threaded use -/
+
+/-- Between two API calls of the one thread: no maintenance run is in progress and both
+queues are at most at their flush points. -/
+structure QInv (s : SState) : Prop where
+  running : s.running = false
+  writeQ : s.writeQ.length ≤ Gen.WRITE_LOG_FLUSH_POINT
+  readQ : s.readQ.length ≤ Gen.READ_LOG_FLUSH_POINT
+
+/-- The only facts about the (regenerated) constants that the argument uses. -/
+theorem wfp_pos : 0 < Gen.WRITE_LOG_FLUSH_POINT := by decide
+theorem wfp_lt_size : Gen.WRITE_LOG_FLUSH_POINT < Gen.WRITE_LOG_SIZE := by decide
+theorem rfp_pos : 0 < Gen.READ_LOG_FLUSH_POINT := by decide
+
+theorem qinv_init : QInv ({} : SState) :=
+  ⟨rfl, Nat.zero_le _, Nat.zero_le _⟩
+
+/-- A state that differs only in fields the invariant does not mention. -/
+theorem qinv_of_eq {s s' : SState} (h : QInv s) (hg : s'.running = s.running)
+    (hw : s'.writeQ = s.writeQ) (hr : s'.readQ = s.readQ) : QInv s' :=
+  ⟨by rw [hg]; exact h.running, by rw [hw]; exact h.writeQ, by rw [hr]; exact h.readQ⟩
+
+/-- The maintenance that `schedule_write_op` performs before it tries to send. -/
+def housekeepW (p : Params) (s : SState) : SState :=
+  if shouldApply s s.writeQ.length Gen.WRITE_LOG_FLUSH_POINT then trySync p s else s
+
+/-- The maintenance that `record_read_op` performs before it tries to send. -/
+def housekeepR (p : Params) (s : SState) : SState :=
+  if shouldApply s s.readQ.length Gen.READ_LOG_FLUSH_POINT then trySync p s else s
+
+/-- Both housekeeping regimes: if maintenance is due (queue at the flush point, or within the
+periodic-sync interval) it runs and empties the queues; if not, the write queue is below its
+flush point. Either way there is room. -/
+theorem housekeepW_spec (p : Params) {s : SState} (h : QInv s) :
+    QInv (housekeepW p s) ∧ (housekeepW p s).writeQ.length < Gen.WRITE_LOG_FLUSH_POINT ∧
+    ((housekeepW p s).fault = some Fault.hang → s.fault = some Fault.hang) ∧
+    (housekeepW p s).now = s.now := by
+  unfold housekeepW
+  split
+  · have hs := trySync_spec p s h.running
+    refine ⟨⟨hs.running, ?_, ?_⟩, ?_, hs.hang, hs.now⟩
+    · rw [hs.writeQ]; exact Nat.zero_le _
+    · rw [hs.readQ]; exact Nat.zero_le _
+    · rw [hs.writeQ]; exact wfp_pos
+  · rename_i hsa
+    refine ⟨h, ?_, fun x => x, rfl⟩
+    unfold shouldApply at hsa
+    simp only [Bool.or_eq_true, decide_eq_true_eq, not_or, Nat.not_le] at hsa
+    exact hsa.1
+
+theorem housekeepR_spec (p : Params) {s : SState} (h : QInv s) :
+    QInv (housekeepR p s) ∧ (housekeepR p s).readQ.length < Gen.READ_LOG_FLUSH_POINT ∧
+    ((housekeepR p s).fault = some Fault.hang → s.fault = some Fault.hang) ∧
+    (housekeepR p s).now = s.now := by
+  unfold housekeepR
+  split
+  · have hs := trySync_spec p s h.running
+    refine ⟨⟨hs.running, ?_, ?_⟩, ?_, hs.hang, hs.now⟩
+    · rw [hs.writeQ]; exact Nat.zero_le _
+    · rw [hs.readQ]; exact Nat.zero_le _
+    · rw [hs.readQ]; exact rfp_pos
+  · rename_i hsa
+    refine ⟨h, ?_, fun x => x, rfl⟩
+    unfold shouldApply at hsa
+    simp only [Bool.or_eq_true, decide_eq_true_eq, not_or, Nat.not_le] at hsa
+    exact hsa.1
+
+/-- Under the invariant, `schedule_write_op` sends in its first iteration: it never retries,
+let alone runs out of fuel (the `Fault.hang` branch). -/
+theorem scheduleWriteOp_enqueues (p : Params) (fuel : Nat) {s : SState} (h : QInv s) (op : WOp) :
+    scheduleWriteOp p (fuel + 1) s op =
+      { housekeepW p s with writeQ := (housekeepW p s).writeQ ++ [op] } := by
+  have hk := (housekeepW_spec p h).2.1
+  show (if (housekeepW p s).writeQ.length < Gen.WRITE_LOG_SIZE
+      then { housekeepW p s with writeQ := (housekeepW p s).writeQ ++ [op] }
+      else scheduleWriteOp p fuel (housekeepW p s) op) = _
+  rw [if_pos (Nat.lt_trans hk wfp_lt_size)]
+
+theorem scheduleWriteOp_spec (p : Params) (fuel : Nat) {s0 s : SState} (h : QInv s)
+    (hf : s.fault = s0.fault) (op : WOp) :
+    QInv (scheduleWriteOp p (fuel + 1) s op) ∧
+    ((scheduleWriteOp p (fuel + 1) s op).fault = some Fault.hang →
+      s0.fault = some Fault.hang) := by
+  rw [scheduleWriteOp_enqueues p fuel h]
+  obtain ⟨hi, hlt, hh, _⟩ := housekeepW_spec p h
+  refine ⟨⟨hi.running, ?_, hi.readQ⟩, fun x => by rw [← hf]; exact hh x⟩
+  show ((housekeepW p s).writeQ ++ [op]).length ≤ _
+  rw [List.length_append]
+  exact hlt
+
+theorem recordReadOp_spec (p : Params) {s : SState} (h : QInv s) (op : ROp) :
+    QInv (recordReadOp p s op) ∧
+    ((recordReadOp p s op).fault = some Fault.hang → s.fault = some Fault.hang) := by
+  obtain ⟨hi, hlt, hh, _⟩ := housekeepR_spec p h
+  show QInv (if (housekeepR p s).readQ.length < Gen.READ_LOG_SIZE
+      then { housekeepR p s with readQ := (housekeepR p s).readQ ++ [op] }
+      else housekeepR p s) ∧
+    ((if (housekeepR p s).readQ.length < Gen.READ_LOG_SIZE
+      then { housekeepR p s with readQ := (housekeepR p s).readQ ++ [op] }
+      else housekeepR p s).fault = some Fault.hang → s.fault = some Fault.hang)
+  split
+  · refine ⟨⟨hi.running, hi.writeQ, ?_⟩, hh⟩
+    show ((housekeepR p s).readQ ++ [op]).length ≤ _
+    rw [List.length_append]
+    exact hlt
+  · exact ⟨hi, hh⟩
+
+/-! ### the API calls -/
+
+theorem insert_spec (p : Params) {s : SState} (h : QInv s) (k v : Nat) :
+    QInv (insert p s k v) ∧
+    ((insert p s k v).fault = some Fault.hang → s.fault = some Fault.hang) := by
+  unfold insert
+  dsimp only
+  split
+  · refine scheduleWriteOp_spec p 2 ?_ ?_ _
+    · exact qinv_of_eq h rfl rfl rfl
+    · rfl
+  · refine scheduleWriteOp_spec p 2 ?_ ?_ _
+    · exact qinv_of_eq h rfl rfl rfl
+    · rfl
+
+theorem invalidate_spec (p : Params) {s : SState} (h : QInv s) (k : Nat) :
+    QInv (invalidate p s k) ∧
+    ((invalidate p s k).fault = some Fault.hang → s.fault = some Fault.hang) := by
+  unfold invalidate
+  split
+  · exact ⟨h, fun x => x⟩
+  · dsimp only
+    refine scheduleWriteOp_spec p 2 ?_ ?_ _
+    · exact qinv_of_eq h rfl rfl rfl
+    · rfl
+
+theorem get_spec (p : Params) {s : SState} (h : QInv s) (k : Nat) :
+    QInv (get p s k).1 ∧
+    ((get p s k).1.fault = some Fault.hang → s.fault = some Fault.hang) := by
+  unfold get
+  dsimp only
+  split
+  · exact recordReadOp_spec p h _
+  · split
+    · exact recordReadOp_spec p h _
+    · exact recordReadOp_spec p h _
+
+theorem syncOp_spec (p : Params) {s : SState} (h : QInv s) :
+    QInv (syncRun p s) ∧ ((syncRun p s).fault = some Fault.hang → s.fault = some Fault.hang) := by
+  obtain ⟨a, b, c⟩ := syncRun_spec p s
+  refine ⟨⟨by rw [c.running]; exact h.running, ?_, ?_⟩, c.hang⟩
+  · rw [a]; exact Nat.zero_le _
+  · rw [b]; exact Nat.zero_le _
+
+/-- One API call: the invariant is kept and no `hang` is raised (in any state, whatever the
+parameters and quirks). -/
+theorem step_qinv (p : Params) {s : SState} (h : QInv s) (op : Op) :
+    QInv (step p s op).1 ∧
+    ((step p s op).1.fault = some Fault.hang → s.fault = some Fault.hang) := by
+  unfold step
+  split
+  · exact ⟨h, fun x => x⟩
+  · dsimp only
+    have key : ∀ r : SState × Obs,
+        (QInv r.1 ∧ (r.1.fault = some Fault.hang → s.fault = some Fault.hang)) →
+        QInv (match r.1.fault with | some f => (r.1, Obs.panic f) | none => r).1 ∧
+        ((match r.1.fault with | some f => (r.1, Obs.panic f) | none => r).1.fault =
+          some Fault.hang → s.fault = some Fault.hang) := by
+      intro r hr
+      split <;> exact hr
+    apply key
+    cases op with
+    | ins k v => exact insert_spec p h k v
+    | get k => exact get_spec p h k
+    | has k => exact ⟨h, fun x => x⟩
+    | iter => exact ⟨h, fun x => x⟩
+    | inv k => exact invalidate_spec p h k
+    | invAll => exact ⟨qinv_of_eq h rfl rfl rfl, fun x => x⟩
+    | invIf pr => exact ⟨h, fun x => x⟩
+    | sync => exact syncOp_spec p h
+    | adv d => exact ⟨qinv_of_eq h rfl rfl rfl, fun x => x⟩
+    | snap => exact ⟨h, fun x => x⟩
+    | freq k => exact ⟨h, fun x => x⟩
+
+private theorem panic_aux (r : SState × Obs) (hr : ∀ f, r.2 ≠ Obs.panic f) (f : Fault)
+    (h : (match r.1.fault with | some f => (r.1, Obs.panic f) | none => r).2 = Obs.panic f) :
+    (match r.1.fault with | some f => (r.1, Obs.panic f) | none => r).1.fault = some f := by
+  cases hx : r.1.fault with
+  | none =>
+    simp only [hx] at h
+    exact absurd h (hr f)
+  | some g =>
+    simp only [hx, Obs.panic.injEq] at h ⊢
+    rw [← h]
+
+/-- An observation `panic f` reports the fault of the state after the call, and the state
+before the call had no fault. -/
+theorem step_panic (p : Params) (s : SState) (op : Op) (f : Fault)
+    (h : (step p s op).2 = Obs.panic f) : s.fault = none ∧ (step p s op).1.fault = some f := by
+  unfold step at h ⊢
+  by_cases hs : s.fault.isSome = true
+  · rw [if_pos hs] at h; cases h
+  · rw [if_neg hs] at h ⊢
+    have hn : s.fault = none := by
+      cases hf : s.fault with
+      | none => rfl
+      | some x => rw [hf] at hs; exact absurd rfl hs
+    refine ⟨hn, ?_⟩
+    dsimp only at h ⊢
+    refine panic_aux _ ?_ f h
+    intro g
+    cases op <;> intro hg <;> cases hg
+
+/-- The state after a history. -/
+def stateAfter (p : Params) : SState → List Op → SState
+  | s, [] => s
+  | s, op :: rest => stateAfter p (step p s op).1 rest
+
+theorem stateAfter_qinv (p : Params) (h : List Op) : ∀ {s : SState}, QInv s →
+    QInv (stateAfter p s h) := by
+  induction h with
+  | nil => intro s hs; exact hs
+  | cons op rest ih => intro s hs; exact ih (step_qinv p hs op).1
+
+theorem run_no_hang (p : Params) (h : List Op) : ∀ {s : SState}, QInv s →
+    s.fault ≠ some Fault.hang → ∀ oo ∈ run p s h, oo.2 ≠ Obs.panic Fault.hang := by
+  induction h with
+  | nil => intro s _ _ oo hoo; cases hoo
+  | cons op rest ih =>
+    intro s hs hf oo hoo
+    have hst := step_qinv p hs op
+    have hrun : run p s (op :: rest) = (op, (step p s op).2) :: run p (step p s op).1 rest := rfl
+    rw [hrun] at hoo
+    cases hoo with
+    | head =>
+      intro hp
+      have := step_panic p s op Fault.hang hp
+      exact hf (hst.2 this.2)
+    | tail _ hmem =>
+      exact ih hst.1 (fun x => hf (hst.2 x)) oo hmem
 
 end Sync
 end MiniMoka
